@@ -166,10 +166,9 @@ void h_closestVertex (void)
     V3 e0 = vsub (v0, c0), e1 = vsub (v1, c1), e2 = vsub (v2, c2);
     EL d0 = DIST2 (e0), d1 = DIST2 (e1), d2 = DIST2 (e2);
     V3 r = F_closestVertex (&v0, &v1, &v2, &ln);
-    /* first index of a minimal squared distance (the comparisons are the code's own strict <) */
-    int k = (d0 <= d1 && d0 <= d2) ? 0 : (d1 <= d2) ? 1 : 2;
-    V3 want = k == 0 ? v0 : k == 1 ? v1 : v2;
-    VF_ASSERT (VEQX (r, want), "closestVertex returns the first vertex of minimal squared distance to the line");
+    /* some vertex of minimal squared distance (which one on a tie is not part of the property) */
+    VF_ASSERT ((VEQX (r, v0) && d0 <= d1 && d0 <= d2) || (VEQX (r, v1) && d1 <= d0 && d1 <= d2) || (VEQX (r, v2) && d2 <= d0 && d2 <= d1),
+               "closestVertex returns one of the three vertices, and none of the others is closer to the line (squared distance to its closest point)");
     VF_END ();
 }
 /* project / orthogonal / reflect (ImathVecAlgo.h) */
